@@ -654,11 +654,11 @@ func (m *Module) callee(cc *ssa.CallCommon) *ssa.Function {
 		return nil
 	}
 	if f := cc.StaticCallee(); f != nil {
-		return f
+		return m.unwrap(f)
 	}
 	if g, ok := loadedGlobal(cc.Value); ok {
 		if f, ok := m.seamInit(g); ok {
-			return f
+			return m.unwrap(f)
 		}
 	}
 	return nil
